@@ -1234,6 +1234,8 @@ def interp(x, xp, fp, *args, **kwargs):
     # This avoid leaking a dimensionless unyt_array if reference data
     # is a pure np.ndarray
     ret_units = getattr(fp, "units", 1)
+    _validate_side_values(fp, kwargs, ("left", "right"), args[:2])
+    args = tuple(v if v is None else np.asarray(v) for v in args[:2]) + args[2:]
     return (
         np.interp(np.asarray(x), np.asarray(xp), np.asarray(fp), *args, **kwargs)
         * ret_units
